@@ -1231,6 +1231,11 @@ class WebSocketProtocol13(WebSocketProtocol):
                 self.close(1009, "message too big after decompression")
                 self._abort()
                 return None
+            except zlib.error:
+                # The payload is not a valid DEFLATE stream.
+                gen_log.debug("Invalid compressed websocket message", exc_info=True)
+                self._abort()
+                return None
 
         if opcode == 0x1:
             # UTF-8 data
